@@ -53,8 +53,13 @@ pub struct FeTrace {
     pub events: Vec<Ev>,
     /// number of bytes consumed when each event was reported (where observable)
     pub pos: Option<Vec<usize>>,
+    /// push decoder only: `Some(n)` if `finalize()` reported `DiscardedBytes(n)` (the last event)
+    pub finalize_n: Option<usize>,
 }
 impl FeTrace {
+    pub fn is_reader(&self) -> bool {
+        self.name.starts_with("SmlReader")
+    }
     /// Events with the front-end specific representation of leftover bytes
     /// (`IoErr(Eof, n)` at the very end) mapped to `DiscardedBytes(n)`.
     pub fn normalized(&self) -> Vec<Ev> {
@@ -102,6 +107,7 @@ pub fn conv_read<E: ByteSourceErr>(r: Result<&[u8], ReadDecodedError<E>>) -> Ev 
 pub fn fe_push<B: Buffer>(s: &[u8]) -> FeTrace {
     let mut events = vec![];
     let mut pos = vec![];
+    let mut finalize_n = None;
     let r = guarded(|| {
         let mut d = Decoder::<B>::new();
         for (i, &b) in s.iter().enumerate() {
@@ -118,6 +124,9 @@ pub fn fe_push<B: Buffer>(s: &[u8]) -> FeTrace {
             }
         }
         if let Some(e) = d.finalize() {
+            if let DecodeErr::DiscardedBytes(n) = e {
+                finalize_n = Some(n);
+            }
             events.push(Ev::Dec(e));
             pos.push(s.len());
         }
@@ -131,7 +140,7 @@ pub fn fe_push<B: Buffer>(s: &[u8]) -> FeTrace {
         events.push(Ev::Panic(p));
         pos.push(s.len());
     }
-    FeTrace { name: "Decoder::push_byte+finalize", events, pos: Some(pos) }
+    FeTrace { name: "Decoder::push_byte+finalize", events, pos: Some(pos), finalize_n }
 }
 
 /// `transport::decode` (always `Vec`).
@@ -148,7 +157,7 @@ pub fn fe_decode(s: &[u8]) -> FeTrace {
         }
         Err(p) => events.push(Ev::Panic(p)),
     }
-    FeTrace { name: "decode", events, pos: None }
+    FeTrace { name: "decode", events, pos: None, finalize_n: None }
 }
 
 struct CountIter<'a> {
@@ -201,7 +210,7 @@ pub fn fe_decode_streaming<B: Buffer>(s: &[u8]) -> FeTrace {
         events.push(Ev::Panic(p));
         pos.push(cnt.get());
     }
-    FeTrace { name: "decode_streaming", events, pos: Some(pos) }
+    FeTrace { name: "decode_streaming", events, pos: Some(pos), finalize_n: None }
 }
 
 macro_rules! drain_reader {
@@ -234,7 +243,7 @@ pub fn fe_reader_slice<B: MkBuilder>(s: &[u8]) -> FeTrace {
     }) {
         events.push(Ev::Panic(p));
     }
-    FeTrace { name: "SmlReader(slice)", events, pos: None }
+    FeTrace { name: "SmlReader(slice)", events, pos: None, finalize_n: None }
 }
 pub fn fe_reader_iter_val<B: MkBuilder>(s: &[u8]) -> FeTrace {
     let mut events = vec![];
@@ -268,7 +277,7 @@ pub fn fe_reader_iter_val<B: MkBuilder>(s: &[u8]) -> FeTrace {
         events.push(Ev::Panic(p));
         pos.push(cnt.get());
     }
-    FeTrace { name: "SmlReader(iterator by value)", events, pos: Some(pos) }
+    FeTrace { name: "SmlReader(iterator by value)", events, pos: Some(pos), finalize_n: None }
 }
 pub fn fe_reader_iter_ref<B: MkBuilder>(s: &[u8]) -> FeTrace {
     let mut events = vec![];
@@ -278,7 +287,7 @@ pub fn fe_reader_iter_ref<B: MkBuilder>(s: &[u8]) -> FeTrace {
     }) {
         events.push(Ev::Panic(p));
     }
-    FeTrace { name: "SmlReader(iterator by reference)", events, pos: None }
+    FeTrace { name: "SmlReader(iterator by reference)", events, pos: None, finalize_n: None }
 }
 pub fn fe_reader_cursor<B: MkBuilder>(s: &[u8]) -> FeTrace {
     let mut events = vec![];
@@ -288,7 +297,7 @@ pub fn fe_reader_cursor<B: MkBuilder>(s: &[u8]) -> FeTrace {
     }) {
         events.push(Ev::Panic(p));
     }
-    FeTrace { name: "SmlReader(io::Cursor)", events, pos: None }
+    FeTrace { name: "SmlReader(io::Cursor)", events, pos: None, finalize_n: None }
 }
 /// An `io::Read` that hands out at most one byte per call even for larger buffers.
 pub struct OneByteRead<'a> {
@@ -313,7 +322,7 @@ pub fn fe_reader_onebyte<B: MkBuilder>(s: &[u8]) -> FeTrace {
     }) {
         events.push(Ev::Panic(p));
     }
-    FeTrace { name: "SmlReader(one-byte io::Read)", events, pos: None }
+    FeTrace { name: "SmlReader(one-byte io::Read)", events, pos: None, finalize_n: None }
 }
 
 /// Which front-ends to run.
@@ -364,7 +373,7 @@ pub fn run_default_readers(s: &[u8]) -> Vec<FeTrace> {
         }) {
             events.push(Ev::Panic(p));
         }
-        out.push(FeTrace { name: "SmlReader::from_slice (default 8 KiB)", events, pos: None });
+        out.push(FeTrace { name: "SmlReader::from_slice (default 8 KiB)", events, pos: None, finalize_n: None });
     }
     {
         let mut events = vec![];
@@ -374,7 +383,7 @@ pub fn run_default_readers(s: &[u8]) -> Vec<FeTrace> {
         }) {
             events.push(Ev::Panic(p));
         }
-        out.push(FeTrace { name: "SmlReader::from_iterator (default 8 KiB)", events, pos: None });
+        out.push(FeTrace { name: "SmlReader::from_iterator (default 8 KiB)", events, pos: None, finalize_n: None });
     }
     {
         let mut events = vec![];
@@ -384,7 +393,7 @@ pub fn run_default_readers(s: &[u8]) -> Vec<FeTrace> {
         }) {
             events.push(Ev::Panic(p));
         }
-        out.push(FeTrace { name: "SmlReader::from_reader (default 8 KiB)", events, pos: None });
+        out.push(FeTrace { name: "SmlReader::from_reader (default 8 KiB)", events, pos: None, finalize_n: None });
     }
     out
 }
